@@ -35,6 +35,7 @@ type genesisFam struct {
 func init() { families["genesis"] = func() hx.Family { return &genesisFam{} } }
 
 func (f *genesisFam) Reset(r *hx.Run) {
+	f.w.close()
 	f.w = newWorld()
 	f.chainRt = map[uint64]*routerInfo{}
 	f.installed = map[uint64]string{}
